@@ -229,7 +229,9 @@ def default_object_history():
                                     fn("h0", "p", "a", 3, [("G0", "vdef")]),
                                     fn("m0", "m", "a", 10, [("h0", "bare")]),
                                     fn("m1", "m", "b", 20, [("G1", "vdef")]),
-                                    fn("m2", "m", "b", 30, [("m1", "bare")])]}
+                                    fn("m2", "m", "b", 30, [("m1", "bare")]),
+                                    fn("m3", "m", "b", 40, [("G1", "vkdef")]),          # the same, as the default of a keyword-only parameter
+                                    fn("m4", "m", "b", 50, [("m3", "bare")])]}
     spec0 = copy.deepcopy(spec)
     events, specs, descs = [], [], []
     extras = {}
@@ -239,17 +241,17 @@ def default_object_history():
         events.append({"op": "query", "names": q})
         specs.append((copy.deepcopy(spec), dict(extras), q))
         descs.append(d)
-    step([], "rebind variable G0 (no change, first query)", ["m0", "m1", "m2"])
+    step([], "rebind variable G0 (no change, first query)", ["m0", "m1", "m2", "m3", "m4"])
     vprog.node(spec, "G0")["value"] = {"k": 104}
     step([{"op": "mutate", "mod": "a", "name": "G0", "value": 104}], "mutate variable G0 in place (default value of a parameter of helper h0)", ["m0"])
     extras["clone0"] = "m1"
     step([{"op": "clone", "fn": "m1", "how": "force_local", "as": "clone0"}], "create force_local() clone of m1", ["clone0"])
     vprog.node(spec, "G1")["value"] = [1, 2, 7]
-    step([{"op": "mutate", "mod": "b", "name": "G1", "value": 7}], "mutate variable G1 in place (default value of a parameter of m1)", ["clone0", "m2"])
+    step([{"op": "mutate", "mod": "b", "name": "G1", "value": 7}], "mutate variable G1 in place (default value of a parameter of m1 and of a keyword-only parameter of m3)", ["clone0", "m2", "m4"])
     extras["clone1"] = "m1"
     vprog.node(spec, "G1")["value"] = [1, 2, 7, 8]
     step([{"op": "mutate", "mod": "b", "name": "G1", "value": 8}, {"op": "clone", "fn": "m1", "how": "ignore_result", "as": "clone1"}],
-         "mutate variable G1 in place then create ignore_result() clone of m1", ["clone1", "m1", "clone0"])
+         "mutate variable G1 in place then create ignore_result() clone of m1", ["clone1", "m1", "clone0", "m3", "m4"])
     return spec0, events, specs, descs
 
 
